@@ -37,7 +37,7 @@ def judge_sharded(module, cfg, obs_path, workdir, label, parts=4, env=None, time
     def one(f):
         e = dict(env or {})
         e["OBS"] = f
-        return C.tlc(module, cfg, env=e, workers=w, xmx="6g", timeout=timeout, workdir=workdir)
+        return C.tlc(module, cfg, env=e, workers=w, xmx="5g", timeout=timeout, workdir=workdir)
 
     with cf.ThreadPoolExecutor(max_workers=len(files)) as ex:
         results = list(ex.map(one, files))
@@ -66,8 +66,20 @@ PAIRS = {
 }
 
 
-def run_sem(prop, tier, v, families=None, opts=None, replay_cases=None):
-    """Run the pipeline; returns dict with results for the property-specific classifier."""
+def sample_file(path, every, dst):
+    n = 0
+    with open(dst, "w") as o:
+        for k, line in enumerate(open(path)):
+            if k % every == 0:
+                o.write(line)
+                n += 1
+    return n
+
+
+def run_sem(prop, tier, v, families=None, opts=None, replay_cases=None, want=("sem",), trace_every=0, max_traces=3000,
+            vm_every=1):
+    """Run the pipeline; returns dict with results for the property-specific classifier.
+    want: subset of {"sem", "vm", "trace", "cost"} - which TLC judges to run."""
     work = C.fresh_dir(os.path.join(C.OUT, "work", prop))
     binp = C.build_runner()
     if replay_cases is not None:
@@ -76,29 +88,96 @@ def run_sem(prop, tier, v, families=None, opts=None, replay_cases=None):
             for c in replay_cases:
                 f.write(json.dumps(c) + "\n")
         counts = {"replay": len(replay_cases)}
+        trace_every = 1 if "trace" in want else 0
     else:
         fams = families or FAMILIES[prop][0 if tier == "quick" else 1]
         cases, counts = S.gen_families(fams, tier, work)
     ncases = sum(counts.values())
     t0 = time.time()
     ropts = list(opts or [])
-    obs, crashes = S.run_runner(binp, "sem", cases, work, ropts, shards=min(12, max(1, ncases)))
+    extra = []
+    if "vm" in want:
+        ropts += ["--progs"]
+        extra.append(("--vm-out", "vm"))
+    if "cost" in want or "trace" in want:
+        ropts += ["--cost"]
+    if "trace" in want:
+        ropts += ["--trace-every", str(max(1, trace_every))]
+        extra.append(("--trace-out", "tr"))
+    paths, crashes = S.run_runner(binp, "sem", cases, work, ropts, shards=min(12, max(1, ncases)), extra_outs=extra)
+    obs = paths["obs"]
     C.log("runner: %d cases in %.1fs (%d crashes)" % (ncases, time.time() - t0, len(crashes)))
     nobs = sum(1 for _ in open(obs))
     if nobs + len(crashes) != ncases:
         raise C.ToolError("runner consumed %d of %d cases" % (nobs + len(crashes), ncases))
-    t0 = time.time()
-    results, njudged = judge_sharded("JudgeSem", "JudgeSem.cfg", obs, work, "sem", parts=4 if ncases > 200 else 1)
-    C.log("judge: %d records in %.1fs" % (njudged, time.time() - t0))
-    jl = [j for r in results for j in r.jlines]
-    stats = [j for j in jl if j["kind"] == "stat"]
-    if len(stats) != nobs:
-        raise C.ToolError("judge reported on %d of %d records" % (len(stats), nobs))
-    return {
-        "work": work, "cases": cases, "counts": counts, "ncases": ncases, "obs": obs, "crashes": crashes,
-        "jlines": jl, "stats": stats,
-        "states": sum(r.distinct for r in results), "generated": sum(r.generated for r in results),
-    }
+    R = {"work": work, "cases": cases, "counts": counts, "ncases": ncases, "obs": obs, "crashes": crashes,
+         "jlines": [], "stats": [], "states": 0, "generated": 0, "traces_validated": 0, "trace_states": 0,
+         "vm_runs": 0, "paths": paths, "cost_ratio": 0}
+    big = ncases > 1500
+    parts = (8 if big else 4) if ncases > 200 else 1
+
+    def absorb(results):
+        for r in results:
+            R["jlines"] += r.jlines
+            R["states"] += r.distinct
+            R["generated"] += r.generated
+
+    if "sem" in want:
+        t0 = time.time()
+        results, njudged = judge_sharded("JudgeSem", "JudgeSem.cfg", obs, work, "sem", parts=parts)
+        C.log("judge (ESSem): %d records in %.1fs" % (njudged, time.time() - t0))
+        absorb(results)
+        R["stats"] = [j for j in R["jlines"] if j["kind"] == "stat"]
+        if len(R["stats"]) != nobs:
+            raise C.ToolError("judge reported on %d of %d records" % (len(R["stats"]), nobs))
+    if "cost" in want:
+        t0 = time.time()
+        results, njudged = judge_sharded("JudgeCost", "JudgeCost.cfg", obs, work, "cost", parts=parts)
+        C.log("judge (cost): %d records in %.1fs" % (njudged, time.time() - t0))
+        absorb(results)
+        cs = [j for j in R["jlines"] if j["kind"] == "coststat"]
+        if len(cs) != nobs:
+            raise C.ToolError("cost judge reported on %d of %d records" % (len(cs), nobs))
+        R["cost_ratio"] = max([j["ratio100"] for j in cs] + [0]) / 100.0
+        R["cost_runs"] = sum(j["runs"] for j in cs)
+    if "vm" in want:
+        t0 = time.time()
+        vmf = paths["vm"]
+        if vm_every > 1 and replay_cases is None:
+            vmf = paths["vm"] + ".sample"
+            sample_file(paths["vm"], vm_every, vmf)
+        results, njudged = judge_sharded("JudgeVM", "JudgeVM.cfg", vmf, work, "vm", parts=parts)
+        C.log("judge (machines on dumped bytecode): %d records in %.1fs" % (njudged, time.time() - t0))
+        absorb(results)
+        vs = [j for j in R["jlines"] if j["kind"] == "vmstat"]
+        R["vm_runs"] = sum(j["runs"] for j in vs)
+    if "trace" in want:
+        t0 = time.time()
+        tr = paths["tr"]
+        # bound the number of validated runs (deterministically: the first max_traces lines)
+        ntr = 0
+        trimmed = tr + ".trim"
+        with open(trimmed, "w") as o:
+            for line in open(tr):
+                if ntr >= max_traces:
+                    break
+                o.write(line)
+                ntr += 1
+        if ntr > 0:
+            res = C.tlc("MCVM", "MCVM.cfg", env={"TRACES": trimmed}, workers=C.NCPU, xmx="8g", timeout=3000,
+                        workdir=work, allow_violation=True)
+            inv = res.violated_invariant()
+            R["jlines"] += res.jlines
+            R["trace_states"] = res.distinct
+            R["states"] += res.distinct
+            R["generated"] += res.generated
+            R["traces_validated"] = len([j for j in res.jlines if j["kind"] == "tracestat"])
+            R["trace_inv"] = inv
+            R["trace_inv_text"] = res.text[-3000:] if inv else ""
+            C.log("trace validation: %d runs, %d validated, %d states in %.1fs%s" %
+                  (ntr, R["traces_validated"], res.distinct, time.time() - t0, (" INVARIANT " + inv) if inv else ""))
+        R["ntraces"] = ntr
+    return R
 
 
 def classify(prop, R, v, kinds_sem=(), pairs=(), use_bad=False, use_fails=None):
@@ -116,19 +195,46 @@ def classify(prop, R, v, kinds_sem=(), pairs=(), use_bad=False, use_fails=None):
     samples = []
     kf = {f["id"]: f for f in C.load_known_findings()["findings"] if prop in f["properties"]}
     for j in R["jlines"]:
-        if j["kind"] in kinds_sem and j.get("dev") and j["dev"][0] in kf:
-            f = kf[j["dev"][0]]
-            v.known_finding(f["id"], f["what"])
-        elif j["kind"] in kinds_sem:
+        kd = j["kind"]
+        if kd not in kinds_sem:
+            continue
+        if kd in ("first", "seq", "iter"):
+            if j.get("dev") and j["dev"][0] in kf:
+                f = kf[j["dev"][0]]
+                v.known_finding(f["id"], f["what"])
+                continue
             r = rec(j["id"])
             what = "%s: /%s/%s on %s from %d: expected %s, engine %s" % (
-                j["kind"], r.get("pats"), r.get("flags"), r["hays"][j["h"]], j["s"], j["exp"], j["got"])
-            v.violation(what, {"pipeline": "sem", "case": S.small_case(r, j["h"]), "kind": j["kind"],
+                kd, r.get("pats"), r.get("flags"), r["hays"][j["h"]], j["s"], j["exp"], j["got"])
+            v.violation(what, {"pipeline": "sem", "case": S.small_case(r, j["h"]), "kind": kd,
                                "start": j["s"], "expected": j["exp"], "observed": j["got"]})
-        elif j["kind"] == "compile" and "compile" in kinds_sem:
+        elif kd == "compile":
             r = rec(j["id"])
             v.violation("compile: /%s/%s opt=%s noopt=%s" % (r.get("pats"), r.get("flags"), j["opt"], j["noopt"]),
                         {"pipeline": "sem", "case": S.small_case(r), "kind": "compile"})
+        elif kd == "vm":
+            r = rec(j["id"])
+            what = "machines on the %s program of /%s/%s on %s: BacktrackVM %s, PikeVM %s, engine %s, invariants %s" % (
+                j["prog"], r.get("pats"), r.get("flags"), r["hays"][j["h"]], j["bt"], j["pv"], j["obs"], j["bad"])
+            v.violation(what, {"pipeline": "sem", "case": S.small_case(r, j["h"]), "kind": "vm", "detail": j})
+        elif kd == "cost":
+            r = rec(j["id"])
+            what = "%s on /%s/%s on %s: steps %s depth %s exceed %d = K*%d+K0 (reference search cost %d)" % (
+                j["var"], r.get("pats"), r.get("flags"), r["hays"][j["h"]], j["steps"], j["depth"], j["bound"], j["ref"], j["ref"])
+            v.violation(what, {"pipeline": "sem", "case": S.small_case(r, j["h"]), "kind": "cost", "detail": j})
+        elif kd == "event":
+            r = rec(j["id"])
+            what = "recorded position invalid: %s of /%s/%s on %s: event %s (kind, ip, pos, depth, fwd) at step %d" % (
+                j["var"], r.get("pats"), r.get("flags"), r["hays"][j["h"]], j["event"], j["at"])
+            v.violation(what, {"pipeline": "sem", "case": S.small_case(r, j["h"]), "kind": "event", "detail": j})
+        elif kd == "trace":
+            r = rec(j["id"])
+            what = "run is not a behaviour of the machine: %s of /%s/%s on %s: %s at event %d: event %s, machine %s" % (
+                j["var"], r.get("pats"), r.get("flags"), r["hays"][j["h"]], j["why"], j["at"], j["event"], j["model"])
+            v.violation(what, {"pipeline": "sem", "case": S.small_case(r, j["h"]), "kind": "trace", "detail": j})
+    if "traceinv" in kinds_sem and R.get("trace_inv"):
+        v.violation("machine invariant %s violated on a validated run" % R["trace_inv"],
+                    {"pipeline": "sem", "kind": "traceinv", "invariant": R["trace_inv"], "tlc": R.get("trace_inv_text", "")})
     for st in R["stats"]:
         if pairs and st["ndiffs"] > 0:
             r = rec(st["id"])
@@ -170,7 +276,8 @@ def classify(prop, R, v, kinds_sem=(), pairs=(), use_bad=False, use_fails=None):
                         break
             v.violation("process died (rc=%s) on case %d" % (c["rc"], c["case"]),
                         {"pipeline": "sem", "case": line, "kind": "crash"})
-    for st in R["stats"][:3]:
+    some = R["stats"][:3] or [{"id": j["id"]} for j in R["jlines"] if j["kind"] in ("coststat", "vmstat")][:3]
+    for st in some:
         r = rec(st["id"])
         samples.append({"pattern": r.get("pats"), "flags": r.get("flags"), "haystack": r["hays"][min(2, len(r["hays"]) - 1)],
                         "observed_from_0": r["obs"][min(2, len(r["hays"]) - 1)][0]})
@@ -178,11 +285,14 @@ def classify(prop, R, v, kinds_sem=(), pairs=(), use_bad=False, use_fails=None):
 
 
 def coverage(R, samples, rule):
-    evals = sum(s["evals"] for s in R["stats"])
+    evals = sum(s["evals"] for s in R["stats"]) + R.get("cost_runs", 0) + R.get("vm_runs", 0) + R.get("traces_validated", 0)
     nontriv = sum(s["nontrivial"] for s in R["stats"])
+    if not R["stats"]:
+        nontriv = len([j for j in R["jlines"] if j["kind"] in ("coststat", "vmstat") and j.get("runs", 0) > 0])
     return {
         "states": R["states"], "transitions": R["generated"],
-        "traces_validated_against_impl": 0,
+        "traces_validated_against_impl": R.get("traces_validated", 0),
+        "trace_states": R.get("trace_states", 0), "machine_runs_on_dumped_bytecode": R.get("vm_runs", 0),
         "evaluations": evals, "distinct_nontrivial": nontriv,
         "programs": R["ncases"], "families": R["counts"],
         "rule": rule, "samples": samples, "exhaustive": True,
